@@ -325,6 +325,7 @@ type notedAddr struct {
 	t        *types.Named
 	typ      types.Type
 	size     Term
+	slice    bool // backing array of a slice with element type typ (else: one value of type typ)
 }
 
 type frameRec struct {
@@ -377,7 +378,7 @@ func (x *Exec) noteSlice(s *State, v Value) {
 		return
 	}
 	x.notedSeen[key] = true
-	x.noteRegion(s, notedAddr{ref: v.L[0], off: v.L[1], typ: sl.Elem(), size: mulOff(v.L[3], x.E.size(sl.Elem()))})
+	x.noteRegion(s, notedAddr{ref: v.L[0], off: v.L[1], typ: sl.Elem(), size: mulOff(v.L[3], x.E.size(sl.Elem())), slice: true})
 }
 
 // noteRegion: Go type safety — typed regions whose types are unrelated (neither
@@ -387,7 +388,7 @@ func (x *Exec) noteRegion(s *State, a notedAddr) {
 		if b.ref.S == a.ref.S && b.off.S == a.off.S {
 			continue
 		}
-		if x.E.typesRelated(a.typ, b.typ) {
+		if x.E.regionsRelated(a, b) {
 			continue
 		}
 		disjoint := Or(Not(Eq(a.ref, b.ref)), BVCmp("bvule", BVOp("bvadd", a.off, a.size), b.off), BVCmp("bvule", BVOp("bvadd", b.off, b.size), a.off))
@@ -554,4 +555,47 @@ func (x *Exec) assumeSeparated(s *State, ps []Value) {
 			x.C.Trusted["Go type safety: pointer parameters to unrelated struct types do not overlap"] = true
 		}
 	}
+}
+
+// containsArrayOf: does a value of type outer contain (by value) an array whose
+// elements are of type elem?
+func containsArrayOf(outer, elem types.Type, depth int) bool {
+	if depth > 5 {
+		return true
+	}
+	switch u := outer.Underlying().(type) {
+	case *types.Struct:
+		for i := 0; i < u.NumFields(); i++ {
+			if containsArrayOf(u.Field(i).Type(), elem, depth+1) {
+				return true
+			}
+		}
+	case *types.Array:
+		return typeContains(u.Elem(), elem, depth+1) || containsArrayOf(u.Elem(), elem, depth+1)
+	}
+	return false
+}
+
+// regionsRelated: may the two typed regions overlap under Go's type safety?
+// A slice's backing array is an array allocation (or an array field): it can
+// overlap a struct value only if the struct contains such an array, or if the
+// struct itself lives inside the array's elements.
+func (e *Engine) regionsRelated(a, b notedAddr) bool {
+	switch {
+	case a.slice && b.slice:
+		return e.typesRelated(a.typ, b.typ)
+	case a.slice != b.slice:
+		sl, st := a, b
+		if b.slice {
+			sl, st = b, a
+		}
+		k := "sr|" + types.TypeString(sl.typ, nil) + "|" + types.TypeString(st.typ, nil)
+		if r, ok := e.relatedCache2[k]; ok {
+			return r
+		}
+		r := containsArrayOf(st.typ, sl.typ, 0) || typeContains(sl.typ, st.typ, 0)
+		e.relatedCache2[k] = r
+		return r
+	}
+	return e.typesRelated(a.typ, b.typ)
 }
